@@ -298,6 +298,9 @@ pub fn str_to_dec(lit: &str) -> Result<(i128, isize), ParseDecimalError> {
                 _ => false,
             };
             let n_exp_digits = lit.accum_exp(&mut exp);
+            if n_exp_digits == 0 {
+                return Err(ParseDecimalError::Invalid);
+            }
             if exp_is_negative {
                 exp = -exp;
             }
